@@ -42,14 +42,14 @@ var props = []*PropDef{
 	},
 	{
 		ID:     "C02",
-		Funcs:  []string{"datamatrix.addPadding"},
+		Funcs:  []string{"datamatrix.encodeText", "datamatrix.addPadding"},
 		Unwind: []*Unwinder{unwDM, unwSelect},
 		Tables: []string{"dm/codeSizes", "gf/fields"},
 		Harness: []Harness{
 			{Pkg: "datamatrix", File: "c02_dm_test.go", Run: "^TestVerifC02$", Bound: boundedNote + "full round trip through the independent ISO 16022 reader dmspec.Decode (ASCII encodation, 253-state padding, RS validity): every codeword count 0..1561, capacity +-2 of all 24 sizes, all strings of length <= 4 over 9 bytes, seeded random contents"},
 		},
-		Assumptions: []string{asmBitlist, asmRS, "RS Encode is abstracted to its shape contract while unwinding calcECC", "encodeText is NOT under a functional contract yet: the ASCII decode-back clause rests on the bounded stand-in"},
-		Note:        "[C] for all 24 sizes read from the current codeSizes table, with symbolic codewords: datamatrix.render (SetValues incl. the four corner cases and the fixed pattern, Merge with finder/clock tracks) equals the independent Annex F placement + symbol layout module by module; the explicit panic(\"Field already occupied\") is unreachable; calcECC hands block b exactly data[b], data[b+n], ... to the Reed-Solomon encoder (GF(256)/301, first root alpha^1, [T]) and stores the check words at the ISO interleaved positions without touching the caller's slice. [P] addPadding: for every input and every target count the result keeps the data codewords, then carries 129 and the ISO 16022 253-state randomised pads at every further position (loop invariants, unbounded).",
+		Assumptions: []string{asmBitlist, asmRS, "RS Encode is abstracted to its shape contract while unwinding calcECC", "that the ASCII encodation rules (pair -> 130+v, c -> c+1, upper shift 235) are uniquely decodable is the standard's design, not re-derived: the contract states the encoder side"},
+		Note:        "[C] for all 24 sizes read from the current codeSizes table, with symbolic codewords: datamatrix.render (SetValues incl. the four corner cases and the fixed pattern, Merge with finder/clock tracks) equals the independent Annex F placement + symbol layout module by module; the explicit panic(\"Field already occupied\") is unreachable; calcECC hands block b exactly data[b], data[b+n], ... to the Reed-Solomon encoder (GF(256)/301, first root alpha^1, [T]) and stores the check words at the ISO interleaved positions without touching the caller's slice. [P] encodeText: for every content the codeword sequence is exactly the ISO 16022 ASCII encodation with greedy digit pairing from the left (recursive spec functions for step starts and output positions; loop invariant carries the uniqueness of step starts as its induction). [P] addPadding: for every input and every target count the result keeps the data codewords, then carries 129 and the ISO 16022 253-state randomised pads at every further position (loop invariants, unbounded).",
 	},
 	{
 		ID:     "C03",
@@ -187,6 +187,7 @@ var props = []*PropDef{
 	},
 	{
 		ID:     "C13",
+		Funcs:  []string{"datamatrix.encodeText"},
 		Unwind: []*Unwinder{unwPDF, unwSelect, unwAztec},
 		Only:   map[string]string{"aztec": `/(smallest|fits|too-large#[0-9]+)$`},
 		Tables: []string{"qr/versionInfos", "dm/codeSizes", "aztec/tables"},
